@@ -14,7 +14,9 @@ Definition run_hdr_core (p : profile) (m : mem) : res dref * list string :=
   let l := hdr_load p false m in
   (l, [ line "load" (sRes (fun r => "magic=" ++ sN (hdr_magic m r) ++ " arch=" ++ sN (hdr_arch m r)
                               ++ " length=" ++ sN (hdr_length m r) ++ " checksum=" ++ sN (hdr_checksum m r)
-                              ++ " verify=" ++ sRes sBool (verify_checksum m r)) l) ]).
+                              ++ " verify=" ++ sRes sBool (verify_checksum m r)
+                              (* Debug of the header reads the four fields; formatted only when the architecture word is defined *)
+                              ++ " dbg=" ++ (if (hdr_arch m r =? 0) || (hdr_arch m r =? 4) then "VAL" else "UB")) l) ]).
 
 Definition hlines_walk (p : profile) (m : mem) (r : dref) : list string :=
   let b := d_off r + 16 in
@@ -77,7 +79,15 @@ Definition hlines_kind (k : hkind2) (m : mem) (t : tref) : list string :=
                        ++ " preference=" ++ sRes sN (enum_in (hfld k m t "preference") 2)
     | _ => ""
     end in
-  [line (hgetter_name k ++ "_tag") (common ++ extra)].
+  (* Debug of a typed header tag reads its fields (never panics); formatted only when every enum-typed field is defined *)
+  let enums_ok :=
+    is_val (htag_typ m (t_off t)) && is_val (htag_flags m (t_off t)) &&
+    match k with
+    | HkConsole => is_val (enum_in (hfld k m t "console_flags") 1)
+    | HkRelocatable => is_val (enum_in (hfld k m t "preference") 2)
+    | _ => true
+    end in
+  [line (hgetter_name k ++ "_tag") (common ++ extra ++ " dbg=" ++ (if enums_ok then "VAL" else "UB"))].
 
 Definition hlines_get (p : profile) (k : hkind2) (m : mem) (r : dref) : list string :=
   let nm := hgetter_name k in
